@@ -1,8 +1,10 @@
 use crate::fw::*;
+pub mod c09;
 pub mod c11;
 
 pub fn run(prop: &str, tier: Tier) -> Report {
     match prop {
+        "C09" => c09::run(tier),
         "C11" => c11::run(tier),
         _ => {
             eprintln!("unknown property {prop}");
@@ -12,6 +14,7 @@ pub fn run(prop: &str, tier: Tier) -> Report {
 }
 pub fn replay(prop: &str, _tier: Tier, case: &serde_json::Value) -> Vec<Violation> {
     match prop {
+        "C09" => c09::replay(case),
         "C11" => c11::replay(case),
         _ => {
             eprintln!("unknown property {prop}");
